@@ -4,6 +4,7 @@ From TL Require Import Lib.Base Model.Loc.
 
 Definition loc_actual : lquirks := {|
   q_rs_chain_start := true;
+  q_ts_arrow_node_start := true;
   q_ts_console_chain_start := true;
   q_fh_header_relative := true;
   q_col_const_unclamped := true |}.
